@@ -497,6 +497,7 @@ impl SubRule {
             #[cfg(feature = "verif")] crate::verif::tick(112);
             *state_index = back_state;
             if self.match_opt_states(opt_states, word, pos, forwards)? {
+                let opt_pos = *pos;
                 let mut m = true;
                 while *state_index < states.len() {
                     #[cfg(feature = "verif")] crate::verif::tick(113);
@@ -510,6 +511,7 @@ impl SubRule {
                     return Ok(true)
                 } else {
                     index += 1;
+                    *pos = opt_pos;
                     *self.alphas.borrow_mut() = back_alphas.clone();
                     *self.variables.borrow_mut() = back_varlbs.clone();
                     continue;
